@@ -66,9 +66,12 @@ def main():
             tests_ok = None
             if args.tests:
                 env = dict(os.environ, PYTHONPATH=os.path.join(tmp, "src"))
-                r = subprocess.run(["/venv/bin/python", "-m", "pytest", "-q", "-p", "no:cacheprovider", "-x", "--no-cov",
-                                    "-o", "addopts=", "tests"], cwd=tmp, env=env, capture_output=True, text=True, timeout=900)
-                tests_ok = r.returncode == 0
+                try:
+                    r = subprocess.run(["/venv/bin/python", "-m", "pytest", "-q", "-p", "no:cacheprovider", "-x", "--no-cov", "--timeout=120",
+                                        "-o", "addopts=", "tests"], cwd=tmp, env=env, capture_output=True, text=True, timeout=600)
+                    tests_ok = r.returncode == 0
+                except subprocess.TimeoutExpired:
+                    tests_ok = False   # e.g. a mutant that deadlocks the suite
             for prop in m["props"]:
                 if args.prop and prop != args.prop:
                     continue
@@ -88,6 +91,8 @@ def main():
                 print(f"{flag:11s} {m['id']:34s} {prop} rules={','.join(rules)} tests_pass={tests_ok}", flush=True)
                 if r.returncode not in (0, 1):
                     print(r.stdout[-1500:], r.stderr[-1500:])
+                if args.json:
+                    json.dump(results, open(args.json, "w"), indent=1)
         finally:
             shutil.rmtree(tmp, ignore_errors=True)
     if args.json:
